@@ -316,8 +316,10 @@ class Gen:
             if spec.get('decreases'):
                 ins.append('        decreases %s, //@[%s.loop%d.decreases]' % (spec['decreases'], fn.short, k))
             body_pre = ''
+            if spec.get('body_ghost'):
+                body_pre = '\n ' + spec['body_ghost'] + '\n'
             if spec.get('body_start'):
-                body_pre = '\n proof { ' + spec['body_start'] + ' }\n'
+                body_pre += '\n proof { ' + spec['body_start'] + ' }\n'
             body_post = ''
             if spec.get('body_end'):
                 body_post = '\n proof { ' + spec['body_end'] + ' }\n'
